@@ -72,8 +72,13 @@ def gen_fund(r: random.Random, profile: str = "scripted") -> Dict[str, Any]:
                     ops[-1]["v"] = r.choice([0.8, 1.2])
         if r.random() < 0.2:
             ops.append({"k": "query", "times": [r.randrange(10 ** 6) for _ in range(3)]})
+    late = []
+    if r.random() < 0.25:
+        for _ in range(r.randint(1, 2)):
+            late.append({"initial": r.choice([1.0, 100.0, 777.0]), "drift": r.choice([0.0, 0.001, -0.01]),
+                         "start_at": r.choice([1, 2, 7, 50, 99, 100, 101, horizon // 2])})
     return {"format": 1, "driver": "F", "runner_seed": r.randrange(2 ** 31),
-            "f": {"markets": markets, "corr": corr}, "fops": ops,
+            "f": {"markets": markets, "corr": corr, "late": late}, "fops": ops,
             "knobs": {"generation_chunk": chunk, "storage_chunk": r.choice([None, 3, 7]) if chunk else None},
             "scripted_normal": profile == "scripted"}
 
